@@ -41,6 +41,12 @@ def durations(rng, order, n, ratio=None, short=0.8):
     # re-check the ratio after rounding
     if max(hs) / min(hs) > ratio:
         hs = [max(h, max(hs) / ratio) for h in hs]
+    # nearly uniform: neighbouring durations that differ by 1e-13 … 2e-7 relative (a "same as the previous segment" shortcut
+    # with a tolerance instead of an exact comparison shows here), some of them exactly equal
+    if n >= 2 and rng.random() < 0.12:
+        base = hs[0]
+        e = rng.choice([22, 24, 28, 34, 43])
+        hs = [base * (1.0 + rng.choice([-2, -1, 0, 0, 1, 2, 3]) * 2.0 ** -e) for _ in range(n)]
     return hs
 
 
